@@ -63,10 +63,15 @@ type pool struct {
 	R          *regex.Schema
 	// S1 and S2 are different schemas to which the SAME type object B was added
 	S1, S2, B *jschema.Schema
+	// C extends @base and is added to S3 together with B; alone, C does not know @base
+	C, S3 *jschema.Schema
 }
 
 const brokenText = "{\n  \"a\": 1,\n  \"b\": tru\n}"
 const enumText = "[\n  // small\n  1, // one\n  // large\n  2,\n  \"two\",\n  \"1.5\"\n]"
+
+const baseText = "{\n  \"id\": 1\n}"
+const childText = "{ // {allOf: \"@base\"}\n  \"name\": \"x\"\n}"
 
 func newPool() *pool {
 	p := &pool{}
@@ -98,13 +103,17 @@ func newPool() *pool {
 	p.D = append(p.D, newDoc(4))
 	p.consumed = make([]bool, len(p.D))
 	p.R = regex.New("@r", "/^ab+c$/")
-	p.B = jschema.New("@base", "{\n  \"id\": 1\n}")
+	p.B = jschema.New("@base", baseText)
 	p.S1 = jschema.New("s1", "{ // {allOf: [\"@base\", \"@left\"]}\n}")
 	p.S1.AddType("@base", p.B)
 	p.S1.AddType("@left", jschema.New("@left", "{\n  \"name\": \"x\"\n}"))
 	p.S2 = jschema.New("s2", "{ // {allOf: [\"@base\", \"@right\"]}\n  \"own\": true // {optional: true}\n}")
 	p.S2.AddType("@base", p.B)
 	p.S2.AddType("@right", jschema.New("@right", "{\n  \"size\": 1\n}"))
+	p.C = jschema.New("@child", childText)
+	p.S3 = jschema.New("s3", "{\n  \"c\": @child\n}")
+	p.S3.AddType("@child", p.C)
+	p.S3.AddType("@base", p.B)
 	return p
 }
 
@@ -327,6 +336,30 @@ func sharedAlphabet() []opT {
 	}
 }
 
+// heirAlphabet: a type object that extends @base is used on its own (where @base is unknown: every call
+// fails) and through a schema that knows both; plus the schemas sharing @base.
+func heirAlphabet() []opT {
+	val := func(name string, get func(p *pool) *jschema.Schema, doc string) opT {
+		return opT{fmt.Sprintf("%s.Validate(%s)", name, doc), func(p *pool) (string, *held) {
+			return errStr(get(p).Validate(json.New("d", doc))), nil
+		}}
+	}
+	s3 := func(p *pool) *jschema.Schema { return p.S3 }
+	cc := func(p *pool) *jschema.Schema { return p.C }
+	s1 := func(p *pool) *jschema.Schema { return p.S1 }
+	return []opT{
+		{"C.Check", func(p *pool) (string, *held) { return errStr(p.C.Check()), nil }},
+		val("C", cc, `{"id":7,"name":"x"}`),
+		{"C.Example", func(p *pool) (string, *held) { x, err := p.C.Example(); return string(x) + " " + errStr(err), nil }},
+		{"S3.Check", func(p *pool) (string, *held) { return errStr(p.S3.Check()), nil }},
+		val("S3", s3, `{"c":{"id":7,"name":"x"}}`), val("S3", s3, `{"c":{"name":"x"}}`),
+		{"S3.Example", func(p *pool) (string, *held) { x, err := p.S3.Example(); return string(x) + " " + errStr(err), nil }},
+		{"B.Check", func(p *pool) (string, *held) { return errStr(p.B.Check()), nil }},
+		{"S1.Check", func(p *pool) (string, *held) { return errStr(p.S1.Check()), nil }},
+		val("S1", s1, `{"id":7}`),
+	}
+}
+
 // runHistory executes the history on a fresh pool; returns the first deviation.
 func runHistory(ops []opT, fresh []string, hist []int) string {
 	p := newPool()
@@ -382,6 +415,8 @@ func histories(c *ev.Ctx) {
 	historiesOver(c, alphabet(), depth, "")
 	// two schemas that share one added type object: a small alphabet, one level deeper
 	historiesOver(c, sharedAlphabet(), depth+1, "shared_types_")
+	// a type that extends another one, used alone (failing) and inside a schema that knows its base
+	historiesOver(c, heirAlphabet(), depth+1, "heir_types_")
 }
 
 func historiesOver(c *ev.Ctx, ops []opT, depth int, tag string) {
@@ -495,7 +530,58 @@ func reportHistory(c *ev.Ctx, ops []opT, fresh []string, hist []int, env []int, 
 			return out
 		}, func(h []int) bool { return len(h) > 0 && run(h) != "" })
 	}
-	c.Violate(fmt.Sprintf("history;%v;env=%v", names(ops, red), env), fmt.Sprintf("history %v (pool answers %v): %s", names(ops, red), env, run(red)), caseT{Kind: "history", History: names(ops, red), Env: env})
+	key := fmt.Sprintf("history;%v;env=%v", names(ops, red), env)
+	if extendedInPlace(ops, fresh, red, env) {
+		key = "history;added-type-using-allOf-is-extended-in-place-by-the-schema-it-was-added-to"
+	}
+	c.Violate(key, fmt.Sprintf("history %v (pool answers %v): %s", names(ops, red), env, run(red)), caseT{Kind: "history", History: names(ops, red), Env: env})
+}
+
+// extendedInPlace recognises ONE recorded defect by what it does, not by where it shows: the first
+// deviating step is an operation on the type object C (which extends @base and fails alone, @base being
+// unknown to it), an earlier step used S3 (to which C was added together with @base), and the deviating
+// result is exactly what the same operation returns on a twin of C that knows @base - i.e. S3's compilation
+// has extended the shared type object in place. Any other deviation keeps its own key.
+func extendedInPlace(ops []opT, fresh []string, hist []int, env []int) bool {
+	step, got := -1, ""
+	shim.RunEnv(env, func() {
+		p := newPool()
+		for i, oi := range hist {
+			var res string
+			func() {
+				defer func() {
+					if r := recover(); r != nil {
+						res = fmt.Sprintf("PANIC %v", r)
+					}
+				}()
+				res, _ = ops[oi].run(p)
+			}()
+			if res != fresh[oi] {
+				step, got = i, res
+				return
+			}
+		}
+	})
+	if step < 1 || !strings.HasPrefix(ops[hist[step]].name, "C.") {
+		return false
+	}
+	usedRoot := false
+	for _, oi := range hist[:step] {
+		if strings.HasPrefix(ops[oi].name, "S3.") {
+			usedRoot = true
+		}
+	}
+	if !usedRoot {
+		return false
+	}
+	var twin string
+	shim.RunEnv(nil, func() {
+		p := newPool()
+		p.C = jschema.New("@child", childText)
+		p.C.AddType("@base", jschema.New("@base", baseText))
+		twin, _ = ops[hist[step]].run(p)
+	})
+	return got == twin
 }
 
 // ---- (b) map order --------------------------------------------------------------------------------------
@@ -700,7 +786,7 @@ func replay(raw stdjson.RawMessage) (bool, string) {
 		return d != "", d
 	}
 	if cs.Kind == "history" {
-		ops := append(alphabet(), sharedAlphabet()...)
+		ops := append(append(alphabet(), sharedAlphabet()...), heirAlphabet()...)
 		fresh := make([]string, len(ops))
 		for i := range ops {
 			shim.RunEnv(nil, func() { fresh[i], _ = ops[i].run(newPool()) })
@@ -710,6 +796,7 @@ func replay(raw stdjson.RawMessage) (bool, string) {
 			for i, o := range ops {
 				if o.name == n {
 					hist = append(hist, i)
+					break // equally named operations of different alphabets are the same operation
 				}
 			}
 		}
